@@ -82,6 +82,7 @@ def run(ctx):
         ctx.run_rule("R6-codec", r6_codec, F)
         ctx.run_rule("R7-not-implemented", r7_overrides, F)
         ctx.run_rule("R8-path-walkers", r8_walkers, F)
+        ctx.run_rule("R9-index-allocator", r9_allocator, F)
     finally:
         vf.NOUPD[0] = False
     ctx.assumptions += ["backends number their own inodes consistently", "stale inode numbers after slot reuse are not examined"]
@@ -463,6 +464,36 @@ def r6_codec(ctx, F):
     ctx.check("R6-codec", "convert_inode/refuses", vf.fact("Gt(inode, VFS_MAX_INO)") in r and "Err(" in r, "convert_inode no longer refuses numbers above VFS_MAX_INO", loc=b.loc())
     ctx.check("R6-codec", "convert_inode/negative", "Eq(0, inode) => Ok(inode)" in r or "Eq(inode, 0) => Ok(inode)" in r, "convert_inode no longer passes the negative-entry number 0 through", loc=b.loc())
     ctx.check("R6-codec", "pseudo-index", F.const("api::vfs::VFS_PSEUDO_FS_IDX") == 0, "the pseudo filesystem index is not 0")
+
+
+def r9_allocator(ctx, F):
+    """Vfs::allocate_fs_idx walks the index space once from next_super: the pseudo index and occupied slots are skipped, a free
+    slot is returned, and the walk gives up only when it comes back to its start for the second time."""
+    rule = "R9-index-allocator"
+    from rules import c10
+    b = F.method(VFS, "allocate_fs_idx")
+    ctx.fn_seen(b)
+    v = vf.VF(b, inline_depth=0, opaque_loops=True)
+    sw = [x for h in sorted(v.loop_headers()) for x in c10.loop_switches(b, v, h)]
+    idx = "Atomic::fetch_add(self.next_super, 1, Relaxed)"
+    want = [
+        ("back-at-start", "Eq(%s, Atomic::load(self.next_super, SeqCst))" % idx, {0: "loop", "otherwise": "loop"}),
+        ("second-time-gives-up", "loop(found)", {0: "loop", "otherwise": "exit"}),
+        ("pseudo-index-skipped", "Eq(%s, VFS_PSEUDO_FS_IDX)" % idx, {0: "loop", "otherwise": "loop"}),
+        ("in-range", "Lt((%s as usize), Vec::len(ArcSwapAny::load(self.superblocks)))" % idx, {0: "exit", "otherwise": "loop"}),
+    ]
+    for (nm, cond, edges) in want:
+        m = [x for x in sw if x[0] == cond or x[0] == cond.replace("Eq(%s, " % idx, "Eq(").replace(")", ", %s)" % idx, 1)]
+        ctx.check(rule, nm, len(m) == 1 and m[0][1] == edges, "allocate_fs_idx: decision `%s` has edges %s, required %s" % (cond[:70], [x[1] for x in m] or "missing", edges), loc=b.loc())
+    occ = [x for x in sw if x[0].startswith("Option::is_some(Vec::index(ArcSwapAny::load(self.superblocks), ")]
+    ctx.check(rule, "occupied-skipped", len(occ) == 1 and occ[0][1] == {0: "exit", "otherwise": "loop"}, "allocate_fs_idx must skip occupied slots and return a free one", loc=b.loc())
+    # found is tested only when the walk is back at its start, and set there
+    f = [x for x in sw if x[0] == "loop(found)"]
+    if f:
+        ok = any(t.startswith("Eq(%s, Atomic::load(self.next_super" % idx) and l != 0 for (t, l) in f[0][3])
+        ctx.check(rule, "gives-up-only-at-start", ok, "allocate_fs_idx may give up only when the walk is back at its starting index", loc=b.loc())
+    r = vf.render(v.ret(), b, short=True, vfx=v)
+    ctx.check(rule, "returns-the-free-index", "=> Ok(%s)" % idx in r and "&& loop(found) => Err(" in r, "allocate_fs_idx returns `%s`" % r[:200], loc=b.loc())
 
 
 def r8_walkers(ctx, F):
